@@ -19,7 +19,9 @@ RULE = ('seeded generators over the stated domains, each value pushed through th
         'patched os.stat; to_base_n/from_base_n; (c) every app and server trace event class with schema-valid field '
         'alphabets (separator "," excluded; ".", ":", "-", "#" included; why=None only where the master produces it) -> '
         'to_data -> from_data, and through trace.post_zk -> node name -> AppTraceLoop -> handler; (d) JSON-shaped dicts and '
-        'lists -> zkutils.put/create/update -> get_with_metadata; (e) applications, cell allocations, partitions with any '
+        'lists -> zkutils.put/create/update -> get_with_metadata, also as a rewrite with check_content of a node that holds a '
+        'neighbour of the value (leaves in another JSON type of equal numeric value true/1/1.0, one leaf or key changed, the '
+        'same document, a legacy key order), compared type-exactly; (e) applications, cell allocations, partitions with any '
         'subset of optional fields, nested lists, up to 20 option-indexed items -> to_entry -> from_entry (idempotence and '
         'field-wise superset modulo documented defaults), create/get and update/get through the in-memory directory '
         '(apply(_diff_entries) == new under LDAP set semantics). Injectivity: a shard-wide registry encoding -> canonical '
@@ -30,6 +32,7 @@ ASSUMPTIONS = ['pure functions called directly; zkutils over the in-memory ZooKe
                'field alphabets follow etc/schema/*.json; the node-name separator "," never occurs in a field']
 BUDGET = {'quick': (2400, 30.0), 'thorough': (60000, 240.0)}
 REQUIRED_REACH = {'*': ['rule_roundtrips', 'name_roundtrips', 'event_roundtrips', 'event_pipeline', 'zk_roundtrips',
+                        'zk_rewrites_check_content', 'zk_rewrites_over_equal_valued_other_type', 'zk_rewrites_over_one_leaf_changed',
                         'ldap_roundtrips', 'ldap_update_checks', 'ldap_diff_checks', 'mutation_pairs', 'uniqueid_stat']}
 
 ALNUM = string.ascii_letters + string.digits
@@ -407,6 +410,48 @@ def gen_json(rng, depth=0):
     return [gen_json(rng, depth + 1) for _ in range(rng.randint(0, 4))]
 
 
+def type_variant(rng, obj, changed):
+    """The same document with numeric / boolean leaves spelled in another JSON type of equal numeric value
+    (true / 1 / 1.0, false / 0 / 0.0, 7 / 7.0): equal to the original under Python's ==, another JSON document."""
+    if isinstance(obj, dict):
+        return {k: type_variant(rng, v, changed) for k, v in obj.items()}
+    if isinstance(obj, list):
+        return [type_variant(rng, v, changed) for v in obj]
+    if isinstance(obj, bool) and rng.random() < 0.8:
+        changed.append('bool')
+        return rng.choice([int(obj), float(obj)])
+    if isinstance(obj, int) and not isinstance(obj, bool) and float(obj) == obj and rng.random() < 0.8:
+        alts = [float(obj)] + ([bool(obj)] if obj in (0, 1) else [])
+        changed.append('int')
+        return rng.choice(alts)
+    if isinstance(obj, float) and obj == int(obj) and rng.random() < 0.8:
+        alts = [int(obj)] + ([bool(obj)] if obj in (0.0, 1.0) else [])
+        changed.append('float')
+        return rng.choice(alts)
+    return obj
+
+
+def leaf_variant(rng, obj, changed):
+    """The same document with one leaf (or one key) changed in value."""
+    if isinstance(obj, dict) and obj:
+        k = rng.choice(sorted(obj))
+        if rng.random() < 0.2:
+            changed.append('key')
+            return {(kk + '_' if kk == k else kk): v for kk, v in obj.items()}
+        return {kk: (leaf_variant(rng, v, changed) if kk == k else v) for kk, v in obj.items()}
+    if isinstance(obj, list) and obj:
+        i = rng.randrange(len(obj))
+        return [leaf_variant(rng, v, changed) if j == i else v for j, v in enumerate(obj)]
+    changed.append('leaf')
+    return rng.choice([v for v in (None, 2, 'x', [0], {'k': None}) if v != obj])
+
+
+def exact(obj):
+    """Type-exact canonical text of a JSON-shaped value (Python's == conflates 1, 1.0 and True)."""
+    import json
+    return json.dumps(obj, sort_keys=True)
+
+
 def check_zk(ctx, rng, reg, zk_state):
     from treadmill import zkutils
     import json
@@ -416,10 +461,42 @@ def check_zk(ctx, rng, reg, zk_state):
         obj = rng.choice([{'v': obj}, [obj]])
     case = dict(codec='zk-payload', value=obj)
     path = '/vf/obj'
-    how = rng.choice(['put', 'put-existing', 'create', 'update'])
+    how = rng.choice(['put', 'put-existing', 'create', 'update', 'rewrite', 'rewrite'])
     if zk.exists(path):
         zk.delete(path)
-    if how == 'put':
+    if how == 'rewrite':
+        # the node already holds a NEIGHBOUR of the object (what a resource looks like before an operator edits one field):
+        # the same document with leaves in another JSON type of equal numeric value, one leaf / key changed, the same
+        # document, or the same document written by a legacy client in another key order. Writing with check_content
+        # may skip the write only when the stored document IS the new one; the reader must get what was written last.
+        changed = []
+        kind = rng.choice(['types', 'types', 'leaf', 'same', 'key-order'])
+        if kind == 'types':
+            prev = type_variant(rng, obj, changed)
+        elif kind == 'leaf':
+            prev = leaf_variant(rng, obj, changed)
+        else:
+            prev = copy.deepcopy(obj)
+        if kind == 'key-order' and isinstance(obj, dict) and len(obj) > 1:
+            zk.create(path, json.dumps({k: obj[k] for k in sorted(obj, reverse=True)}).encode(), makepath=True)
+            changed.append('order')
+        else:
+            rng.choice([zkutils.put, zkutils.create])(zk, path, prev)
+        case = dict(case, stored_before=prev, neighbour=kind)
+        writer = rng.choice(['put', 'put', 'update'])
+        if writer == 'put':
+            zkutils.put(zk, path, copy.deepcopy(obj), check_content=True)
+        else:
+            zkutils.update(zk, path, copy.deepcopy(obj), check_content=True)
+        ctx.count('zk_rewrites_check_content')
+        if kind == 'types' and changed and exact(prev) != exact(obj):
+            ctx.count('zk_rewrites_over_equal_valued_other_type')
+            for t in set(changed):
+                ctx.count('zk_rewrites_over_equal_valued_other_type:' + t)
+        elif kind == 'leaf' and changed:
+            ctx.count('zk_rewrites_over_one_leaf_changed')
+        how = 'rewrite-%s:%s' % (writer, kind)
+    elif how == 'put':
         zkutils.put(zk, path, obj)
     elif how == 'put-existing':
         zkutils.put(zk, path, {'old': 1})
@@ -431,8 +508,9 @@ def check_zk(ctx, rng, reg, zk_state):
         zkutils.update(zk, path, obj, check_content=rng.random() < 0.5)
     got, meta = zkutils.get_with_metadata(zk, path)
     ctx.count('zk_roundtrips')
-    if got != obj or type(got) is not type(obj) or json.dumps(got, sort_keys=True) != json.dumps(obj, sort_keys=True):
-        ctx.violation('zk-payload:roundtrip-differs:' + how, '%r read back as %r' % (obj, got), case=case)
+    if got != obj or type(got) is not type(obj) or exact(got) != exact(obj):
+        ctx.violation('zk-payload:roundtrip-differs:' + how, '%r read back as %r%s' % (
+            obj, got, ' (the node held %r before)' % (case['stored_before'],) if 'stored_before' in case else ''), case=case)
     raw = zk.get(path)[0]
     reg.add('zk-payload', raw, json.dumps(obj, sort_keys=True), case)
     return obj, (obj in ({}, []) or any(v in ({}, [], '', None) for v in (obj.values() if isinstance(obj, dict) else obj)))
